@@ -89,7 +89,7 @@ def o_apply(inp):
     field_obj = entry.fields[1]
     cur = lib
     for kind in inp["mws"]:
-        cur = libgen.maybe_preuse(MW[kind](allow_inplace_modification=inp["inplace"]), (inp["v"], inp["mws"])).transform(cur)
+        cur = libgen.maybe_preuse(MW[kind](allow_inplace_modification=inp["inplace"]), (inp["v"], inp["mws"]), same=cur).transform(cur)
     if not isinstance(cur, Library) or len(cur.blocks) != 2:
         return (("shape", f"{type(cur).__name__} with {len(getattr(cur, 'blocks', []))} blocks", "library of 2 blocks"), True, ())
     out_entry, out_other = cur.blocks
